@@ -257,6 +257,24 @@ def alias_of_named(root, rng):
     return Injection(f"alias-of-{type(t).__name__.lower()}", False, f, [al])
 
 
+def alias_of_alias(root, rng):
+    """An alias is itself a named type: `type B = A` (A an alias, of a base type or of an array; same file or imported) is invalid."""
+    f = rng.choice(root.all_files())
+    cands = [d for d in f.items if isinstance(d, Alias)]
+    for imp in f.imports:
+        cands += [d for d in imp.file.items if isinstance(d, Alias)]
+    if not cands or rng.random() < 0.3:
+        a = Alias(fresh("Papa"), Base("uint", rng.choice([3, 8, 24])) if rng.random() < 0.5 else Arr(Base("byte"), 3))
+        insert(f, a, rng)
+        cands = [a]
+    t = rng.choice(cands)
+    al = Alias(fresh("Papa"), Ref(t))
+    al.parent = f
+    lo = f.items.index(t) + 1 if t in f.items else max([i + 1 for i, it in enumerate(f.items) if isinstance(it, Import)] or [0])
+    f.items.insert(rng.randint(lo, len(f.items)), al)
+    return Injection("alias-of-alias" + ("" if t in f.items else ":imported"), False, f, [al])
+
+
 def alias_of_array_of_named(root, rng):
     f = rng.choice(root.all_files())
     named = [d for d in f.items if isinstance(d, (Message, Enum)) and ref.nbits(d) * 2 <= 60000 and not (isinstance(d, Enum) and not d.members)]
@@ -512,6 +530,8 @@ _reg("packing:8", _packing(8))
 _reg("packing:9", _packing(9))
 _reg("alias-of-named", alias_of_named)
 _reg("alias-of-array-of-named", alias_of_array_of_named)
+_reg("alias-of-alias", alias_of_alias)
+_reg("alias-of-alias:2", alias_of_alias)
 _reg("two-dimensional-array", two_dim_array)
 for _what in ("alias", "const", "import", "proto"):
     _reg(f"forbidden:{_what}-in-message", _forbidden("message", _what))
